@@ -817,6 +817,88 @@ pub fn run_directed_last_second_renewal(path: &str) -> (String, String, String) 
     (format!("note directed=last-second-renewal {status}"), "note".to_string(), verdict)
 }
 
+/// Directed (C11, "never hidden or removed while unexpired"): every call that takes an explicit
+/// version timestamp, stamped two hours AHEAD of the wall clock, on keys with one hour to live.
+/// A version timestamp is not the time: the key is unexpired by the wall clock, so each call must
+/// find it (and act on it), and the keys the calls did not delete must still be there afterwards
+/// and after a reopen, with an expiry that has not moved backwards.
+pub fn run_directed_future_stamped(path: &str) -> (String, String, String) {
+    let run = |persistent: bool| -> Result<(), String> {
+        let cfg = Cfg { extreme: false, persistent, cache: false, ttl: true, version: 3, limit: None, blocks: 4096, focus: 0, autocheck: false };
+        let _ = std::fs::remove_file(path);
+        let store = open(&cfg, path).map_err(|e| format!("cannot-create-store {e}"))?;
+        let ahead = now_ns() + 2 * 3_600_000_000_000;
+        let hidden = |call: &str, e: &dyn std::fmt::Display| format!("unexpired-key-hidden ({call} stamped two hours ahead answered {e} on a key with an hour to live) persistent={persistent}");
+        // counters
+        store.atomic_increment_with_ttl(b"fs-counter", 5, 3600).map_err(|e| format!("setup {e}"))?;
+        match store.atomic_increment_with_timestamp(b"fs-counter", 2, Some(ahead)) {
+            Ok(7) => {}
+            Ok(v) => return Err(format!("unexpired-counter-restarted (increment stamped two hours ahead answered {v}, the counter held 5) persistent={persistent}")),
+            Err(e) => return Err(hidden("atomic_increment_with_timestamp", &e)),
+        }
+        store.atomic_increment_with_ttl(b"fs-counter-ttl", 5, 3600).map_err(|e| format!("setup {e}"))?;
+        match store.atomic_increment_with_timestamp_and_ttl(b"fs-counter-ttl", 2, Some(ahead), 3600) {
+            Ok(7) => {}
+            Ok(v) => return Err(format!("unexpired-counter-restarted (increment with ttl stamped two hours ahead answered {v}, the counter held 5) persistent={persistent}")),
+            Err(e) => return Err(hidden("atomic_increment_with_timestamp_and_ttl", &e)),
+        }
+        // compare-and-swap
+        store.insert_with_ttl(b"fs-cas", b"before", 3600).map_err(|e| format!("setup {e}"))?;
+        match store.compare_and_swap_with_timestamp(b"fs-cas", b"before", b"after", Some(ahead)) {
+            Ok(true) => {}
+            Ok(false) => return Err(format!("unexpired-key-hidden (compare_and_swap stamped two hours ahead saw no match on a key holding the expected bytes) persistent={persistent}")),
+            Err(e) => return Err(hidden("compare_and_swap_with_timestamp", &e)),
+        }
+        // JSON patch
+        store.insert_with_ttl(b"fs-json", br#"{"a":1}"#, 3600).map_err(|e| format!("setup {e}"))?;
+        if let Err(e) = store.json_patch_with_timestamp(b"fs-json", br#"[{"op":"replace","path":"/a","value":7}]"#, Some(ahead)) {
+            return Err(hidden("json_patch_with_timestamp", &e));
+        }
+        // a refused increment (not a counter) must not remove the key either
+        store.insert_with_ttl(b"fs-text", b"not-a-counter", 3600).map_err(|e| format!("setup {e}"))?;
+        let _ = store.atomic_increment_with_timestamp(b"fs-text", 1, Some(ahead));
+        // a bystander
+        store.insert_with_ttl(b"fs-bystander", b"still-here", 3600).map_err(|e| format!("setup {e}"))?;
+        let check = |st: &FeoxStore, when: &str| -> Result<(), String> {
+            for (k, want) in [
+                (&b"fs-cas"[..], Some(&b"after"[..])),
+                (b"fs-json", None),
+                (b"fs-text", Some(b"not-a-counter")),
+                (b"fs-bystander", Some(b"still-here")),
+                (b"fs-counter", Some(&7i64.to_le_bytes()[..])),
+                (b"fs-counter-ttl", Some(&7i64.to_le_bytes()[..])),
+            ] {
+                match st.get(k) {
+                    Ok(v) => {
+                        if let Some(w) = want {
+                            if v != w {
+                                return Err(format!("unexpired-key-has-other-bytes key={} {when} persistent={persistent}", String::from_utf8_lossy(k)));
+                            }
+                        }
+                    }
+                    Err(e) => return Err(format!("unexpired-key-lost key={} {when} error={e} persistent={persistent}", String::from_utf8_lossy(k)).replace(": ", "=")),
+                }
+            }
+            Ok(())
+        };
+        check(&store, "after-the-future-stamped-calls")?;
+        if persistent {
+            store.flush().map_err(|e| format!("flush {e}"))?;
+            drop(store);
+            let store = open(&cfg, path).map_err(|e| format!("reopen {e}"))?;
+            check(&store, "after-reopen")?;
+        }
+        Ok(())
+    };
+    let verdict = match std::panic::catch_unwind(std::panic::AssertUnwindSafe(|| run(false).and_then(|_| run(true)))) {
+        Ok(Ok(())) => "ok".to_string(),
+        Ok(Err(e)) => format!("FAIL {e}").replace(": ", "="),
+        Err(_) => "FAIL an-api-call-panicked".to_string(),
+    };
+    let _ = std::fs::remove_file(path);
+    ("note directed=future-stamped-calls-on-unexpired-keys".to_string(), "note".to_string(), verdict)
+}
+
 pub fn configs(extreme: bool) -> Vec<Cfg> {
     let mut v = Vec::new();
     for ttl in [false, true] {
@@ -887,6 +969,10 @@ pub fn run(opts: &Opts) -> i32 {
             }
             if sh == 2 && lastsec {
                 let (case, res, verdict) = run_directed_last_second_renewal(&format!("{scratch}/seq_last_second.feox"));
+                out.emit3(&case, &res, &verdict);
+            }
+            if sh == 3 && lastsec {
+                let (case, res, verdict) = run_directed_future_stamped(&format!("{scratch}/seq_future_stamped.feox"));
                 out.emit3(&case, &res, &verdict);
             }
             if sh == 1 && directed {
